@@ -110,6 +110,7 @@ class Scenario:
         rec.attach(RE)
         loop.is_run_step = lambda h: RE._task is not None and getattr(h._callback, "__self__", None) is RE._task
         loop.active = lambda: RE._task is not None and not RE._task.done()
+        loop.hold_time = lambda: str(RE._state) == "paused"
         devs = build_devices(sc.get("devices", {}), rec, loop)
         self.devs = devs
         futs = {}
@@ -146,7 +147,7 @@ class Scenario:
 
             def fn():
                 rec.ev("req", kind, i.get("arg", "") if kind in ("suspend", "release", "update", "finish") else "",
-                       i.get("pre_id", ""), i.get("post_id", ""))
+                       i.get("pre_id", ""), 0, 0, i.get("post_id", ""))
                 out = "ok"
                 try:
                     if kind == "pause":
@@ -216,7 +217,7 @@ class Scenario:
         outcomes = []
 
         def do_call(op, fn):
-            rec.ev("call", op)
+            rec.ev("call", op, "ri" if (op == "run" and RE.record_interruptions) else "")
             try:
                 r = fn()
                 oc = "ok"
@@ -239,6 +240,9 @@ class Scenario:
                 do_call(d, getattr(RE, d))
         self.points = loop.point
         self.outcomes = outcomes
+        self.harness_errors = [r for r in loop.inject_results if r[2][0] == "exc"]
+        if self.harness_errors:
+            raise RuntimeError(f"injection helper failed: {self.harness_errors}")
         self.final_state = str(RE.state)
         self.stuck = False
         # teardown
